@@ -47,6 +47,7 @@ type vhCmdMeta struct {
 	payload  any
 	events   *[]string
 	verifyOK bool
+	sigOf    string // the file already carries a signature made with this key id (over whatever content it had then)
 }
 
 func (m *vhCmdMeta) ev(s string) { *m.events = append(*m.events, s) }
@@ -65,9 +66,17 @@ func (m *vhCmdMeta) VerifySignature(k intoto.Key) error {
 	}
 	return errors.New("vh: bad signature")
 }
-func (m *vhCmdMeta) GetPayload() any          { return m.payload }
-func (m *vhCmdMeta) Sigs() []intoto.Signature { return nil }
-func (m *vhCmdMeta) GetSignatureForKeyID(string) (intoto.Signature, error) {
+func (m *vhCmdMeta) GetPayload() any { return m.payload }
+func (m *vhCmdMeta) Sigs() []intoto.Signature {
+	if m.sigOf != "" {
+		return []intoto.Signature{{KeyID: m.sigOf, Sig: "00"}}
+	}
+	return nil
+}
+func (m *vhCmdMeta) GetSignatureForKeyID(id string) (intoto.Signature, error) {
+	if m.sigOf != "" && m.sigOf == id {
+		return intoto.Signature{KeyID: id, Sig: "00"}, nil
+	}
 	return intoto.Signature{}, errors.New("vh: none")
 }
 func (m *vhCmdMeta) Dump(path string) error {
@@ -320,7 +329,8 @@ func vh_C20_sign(a []int) {
 	loadOK, keyOK := vBool("layout.loads"), vBool("key.loads")
 	sigOK := vBool("signature.valid")
 	if loadOK {
-		vhLoadable["in.layout"] = &vhCmdMeta{tag: "layout", events: &vhEv, verifyOK: sigOK}
+		// the file may have been signed before - by this key (and edited since) or by another one
+		vhLoadable["in.layout"] = &vhCmdMeta{tag: "layout", events: &vhEv, verifyOK: sigOK, sigOf: vPick("signed-before-by", "", "aaaa000011", "bbbb000022")}
 	}
 	if keyOK {
 		vhKeys["the.key"] = "aaaa000011"
